@@ -51,19 +51,22 @@ MC_INV = {"free": ["TypeOK", "C04_Equal", "C05_All"],
           "notify": ["TypeOK", "C04_Equal", "C05_All", "C06_Exact", "C06_OneOnlineIP4PerMac"]}
 
 
-def run_mc(ctx, mode, depth, export_every=1, timeout=1500, ext=""):
+def run_mc(ctx, mode, depth, export_every=1, timeout=1500, ext="", allow_timeout=False):
     """Exhaustive TLC run; a model-level invariant failure here means specification and reference
-    disagree (design finding or spec bug), which is not a verdict about the code: exit 2."""
+    disagree (design finding or spec bug), which is not a verdict about the code: exit 2.
+    export_every=0: model checking only (no behaviour export)."""
     cfg = mc_cfg(mode, depth, export_every, MC_INV[mode], ext=ext)
     r = vlib.tlc(ctx, "HostsMC", cfg="mc.cfg", files={"mc.cfg": cfg}, timeout=timeout, heap="12g",
                  jprops={"tlc2.tool.queue.IStateQueue": "MemStateQueue"})
+    if allow_timeout and getattr(r, "timed_out", False) and not r.violated:
+        return r
     if not r.ok:
         raise vlib.InfraError("HostsMC %s depth %d: model-level failure (violated=%s, error=%s)\n%s" %
                               (mode, depth, r.violated, r.error, r.out[-3000:]))
     return r
 
 
-def run_sim(ctx, mode, depth, num, timeout=600):
+def run_sim(ctx, mode, depth, num, timeout=45):
     """Random walks of the bounded model (TLC -simulate), every walk exported at full depth."""
     cfg = mc_cfg(mode, depth, 1, MC_INV[mode], symmetry=False).replace("VIEW View\n", "")
     r = vlib.tlc(ctx, "HostsMC", cfg="sim.cfg", files={"sim.cfg": cfg}, timeout=timeout, workers=4,
@@ -315,6 +318,11 @@ def run_family(ctx, check, modes, shared=False):
         if not hs:
             raise vlib.InfraError("TLC exported no behaviours")
         behaviours.append(("mc-%s" % mode, hs))
+        # one level deeper, model checking only (mechanism against the property level, no replay)
+        r = run_mc(ctx, mode, depth + 1, export_every=0, timeout=240 if quick else 2400, allow_timeout=True)
+        cov["tlc"]["mc_%s_depth%d_noexport" % (mode, depth + 1)] = dict(r.summary(), timed_out=bool(getattr(r, "timed_out", False)))
+        states += r.distinct
+        trans += r.generated
         sim_depth, sim_num = (10, 400) if quick else (14, 4000)
         r = run_sim(ctx, mode, sim_depth, sim_num)
         cov["tlc"]["sim_%s_depth%d" % (mode, sim_depth)] = r.summary()
